@@ -74,6 +74,9 @@ pub fn run_case(ctx: &mut Ctx, spec: &CaseSpec) {
     let label = format!("{}#{}", spec.kind, spec.index);
     let mut rng = Rng::derive(ctx.seed, "c16-gpos", spec.index as u64);
     let mut env = Env::new(spec.flip);
+    if std::env::var("VF_C16_VERBOSE").map(|v| v == "2").unwrap_or(false) {
+        eprintln!("{label}: {:?}", spec.lookups);
+    }
     ctx.eval();
     ctx.count("gpos_cases", 1);
     ctx.count(&format!("gpos_cases:{}", spec.kind), 1);
@@ -228,7 +231,11 @@ pub fn run_case(ctx: &mut Ctx, spec: &CaseSpec) {
     }
     let bytes: Option<Vec<u8>> = match dumped {
         Ok(Ok(b)) => Some(b),
-        Ok(Err(write_fonts::error::Error::PackingFailed(_))) => {
+        Ok(Err(write_fonts::error::Error::PackingFailed(e))) => {
+            if std::env::var("VF_C16_VERBOSE").is_ok() {
+                let m = format!("{e}");
+                eprintln!("{label}: packing failed: {}", &m[..m.len().min(3000)]);
+            }
             ctx.count("compile_failed:packing", 1);
             ctx.label("packing_failed_cases", &label);
             ctx.sample_by_kind("packing-failed", case_json(json!({"trace": trace_counts})));
@@ -365,7 +372,14 @@ pub fn run_case(ctx: &mut Ctx, spec: &CaseSpec) {
                 }
                 // stage 1 is sound only if no first glyph is covered by two
                 // class subtables (guaranteed by the generator; verified here)
-                let stage1 = om.f2_coverage_overlaps() == 0;
+                let by_design = match &spec.lookups[li] {
+                    LookupSpec::Pair(bs) => bs.iter().any(|b| b.overlap_prev),
+                    _ => false,
+                };
+                let stage1 = om.f2_coverage_overlaps() == 0 && !by_design;
+                if by_design {
+                    ctx.count("lookups_shadowed_by_design", 1);
+                }
                 if !stage1 {
                     st.stage1_skipped += 1;
                 }
@@ -730,7 +744,7 @@ pub fn run_case(ctx: &mut Ctx, spec: &CaseSpec) {
     ctx.count("delta_sets", n_delta_sets as u64);
     ctx.count("device_or_varidx_records_distinct", env.it.len() as u64);
     ctx.count("subtables_before_compile", st.sub_before as u64);
-    ctx.count("stage1_skipped_lookups(ambiguous)", st.stage1_skipped as u64);
+    ctx.count("lookups_with_overlapping_class_coverage(stage 1 skipped)", st.stage1_skipped as u64);
     if bytes.is_some() {
         ctx.count("compiled_cases", 1);
         ctx.count("compiled_bytes", bytes.as_ref().unwrap().len() as u64);
